@@ -2,7 +2,58 @@
 From Coq Require Import List Arith NArith ZArith Bool Lia.
 Import ListNotations.
 Require Import SR.Base.Res SR.Spec.Layout SR.Model.Layout SR.Model.LayoutValue SR.Spec.Coherence.
+(* Location.__init__ and NDNav under the rules read from the source (Gen/LayoutParams.v): loc_size_plus, nav_*_unf *)
+Require SR.Proofs.LayoutP.
 Open Scope nat_scope.
+
+(* ------------------------------------------------------------------ NDNav under the current rules
+   Model/LayoutValue.v evaluates the rules harness/t1_layout.py read in schema_instance.py; these equations give them
+   in the form the proofs below use and are proved by computation from the generated parameters. *)
+Lemma vnav_of_unf {B} (dcount : list B -> nat) r s :
+  vnav_of dcount r s = match walkv dcount r s 0 [] with Ok (l, an) => Ok (mkvnav l an) | Err e => Err e end.
+Proof. reflexivity. Qed.
+Lemma vnav_name_unf v k :
+  vnav_name v k =
+  match vn_loc v with
+  | WObj _ _ ps =>
+      match wfind k ps with
+      | None => Err KeyError
+      | Some (WRef _ t) => match wlookup t (vn_an v) with Some l => Ok (mkvnav l (vn_an v)) | None => Err KeyError end
+      | Some l => Ok (mkvnav l (vn_an v))
+      end
+  | _ => Err TypeError
+  end.
+Proof. reflexivity. Qed.
+Lemma vnav_index_unf {B} (dcount : list B -> nat) r v i :
+  vnav_index dcount r v i =
+  match vn_loc v with
+  | WArr st _ isz cnt _ sch =>
+      if cnt <=? i then Err IndexError
+      else match walkv dcount r sch (st + isz * i) [] with
+           | Ok (l, an) => Ok (mkvnav l an)
+           | Err e => Err e
+           end
+  | _ => Err TypeError
+  end.
+Proof. reflexivity. Qed.
+Lemma index_start_z_unf v z :
+  index_start_z v z =
+  match vn_loc v with
+  | WArr st _ isz cnt _ _ =>
+      if (Z.of_nat cnt <=? z)%Z then Err IndexError else Ok (Z.of_nat st + Z.of_nat isz * z)%Z
+  | _ => Err TypeError
+  end.
+Proof. reflexivity. Qed.
+Lemma vnav_raw_unf {B} (r : list B) v : vnav_raw r v = slice r (wstart (vn_loc v)) (wend (vn_loc v)).
+Proof. reflexivity. Qed.
+Lemma wsize_ref s k : wsize (WRef s k) = 0.
+Proof. reflexivity. Qed.
+(* NDNav.value is location.value(instance) with the default offset, 0 *)
+Lemma vnav_value_unf {B A} (r : list B) (dec : option key -> list B -> res A) v :
+  vnav_value r dec v = wvalue r dec (length (vn_an v)) (vn_an v) (vn_loc v) 0.
+Proof. reflexivity. Qed.
+Lemma vnav_foot_unf v : vnav_foot v = wfoot (length (vn_an v)) (vn_an v) (vn_loc v) 0.
+Proof. reflexivity. Qed.
 
 (* ------------------------------------------------------------------ slices *)
 Lemma skipn_skipn' : forall {T} (a b : nat) (l : list T), skipn a (skipn b l) = skipn (b + a) l.
@@ -175,7 +226,7 @@ Section Value.
     vnav_name v k = Ok v' ->
     exists x, dlookup k d = Some x /\ vnav_value r dec v' = Some (Ok x).
   Proof.
-    intros r [l an] v' k d Hv Hn. unfold vnav_value, vnav_name in *. cbn [vn_loc vn_an] in *.
+    intros r [l an] v' k d Hv Hn. unfold vnav_value in *; change SR.Gen.LayoutParams.value_default_offset with 0 in *. rewrite ?vnav_name_unf in *. cbn [vn_loc vn_an] in *.
     destruct l as [a st sz|st sz isz cnt it sch|st sz ps|st sz alts|st t]; try discriminate.
     set (F := length an) in *.
     assert (Hb : exists dr, (forall l o x, dr l o = Some x -> wvalue r dec F an l o = Some x) /\
@@ -201,7 +252,7 @@ Section Value.
     In k (wkeys ps) -> exists v', vnav_name v k = Ok v'.
   Proof.
     intros r [l an] st sz ps d k Hl Hv Hin. cbn [vn_loc] in Hl. subst l.
-    unfold vnav_value, vnav_name in *. cbn [vn_loc vn_an] in *.
+    unfold vnav_value in *; change SR.Gen.LayoutParams.value_default_offset with 0 in *. rewrite ?vnav_name_unf in *. cbn [vn_loc vn_an] in *.
     set (F := length an) in *.
     assert (Hb : exists dr, wvalue r dec F an = value_body r dec an dr).
     { destruct F as [|f]; [exists (fun _ _ => None); apply wvalue_0|exists (wvalue r dec f an); apply wvalue_S]. }
@@ -225,7 +276,7 @@ Section Value.
     exists vs, row_values r dec v = Some (Ok vs) /\ Forall2 (fun k x => dlookup k d = Some x) (wkeys ps) vs.
   Proof.
     intros r v st sz ps d Hl Hv. split.
-    - destruct v as [l an]. cbn [vn_loc] in Hl. subst l. unfold vnav_value in Hv. cbn [vn_loc vn_an] in Hv.
+    - destruct v as [l an]. cbn [vn_loc] in Hl. subst l. unfold vnav_value in Hv; change SR.Gen.LayoutParams.value_default_offset with 0 in Hv. cbn [vn_loc vn_an] in Hv.
       set (F := length an) in *.
       assert (Hb : exists dr, wvalue r dec F an = value_body r dec an dr).
       { destruct F as [|f]; [exists (fun _ _ => None); apply wvalue_0|exists (wvalue r dec f an); apply wvalue_S]. }
@@ -329,11 +380,11 @@ Section Value.
     vnav_raw r v = vnav_raw r' v ->
     vnav_value r dec v = vnav_value r' dec v.
   Proof.
-    intros r r' v Hin Hraw. unfold vnav_value. apply frame_wvalue. intros a b Hab.
+    intros r r' v Hin Hraw. unfold vnav_value; change SR.Gen.LayoutParams.value_default_offset with 0. apply frame_wvalue. intros a b Hab.
     unfold foot_inside in Hin. rewrite forallb_forall in Hin. specialize (Hin _ Hab). cbn [fst snd] in Hin.
     apply andb_prop in Hin. destruct Hin as [H1 H2]. apply Nat.leb_le in H1. apply Nat.leb_le in H2.
     rewrite <- (slice_slice r _ _ a b H1 H2), <- (slice_slice r' _ _ a b H1 H2).
-    unfold vnav_raw in Hraw. now rewrite Hraw.
+    rewrite !vnav_raw_unf in Hraw. now rewrite Hraw.
   Qed.
 
   (* an elementary item: its value is its own decoder applied to its own raw bytes *)
@@ -341,7 +392,7 @@ Section Value.
     vn_loc v = WAtom a st sz ->
     vnav_value r dec v = match dec a (vnav_raw r v) with Ok x => Some (Ok (PAtom x)) | Err e => Some (Err e) end.
   Proof.
-    intros r [l an] a st sz Hl. cbn [vn_loc] in Hl. subst l. unfold vnav_value, vnav_raw, wend. cbn [vn_loc vn_an wstart wsize].
+    intros r [l an] a st sz Hl. cbn [vn_loc] in Hl. subst l. unfold vnav_value; change SR.Gen.LayoutParams.value_default_offset with 0. rewrite vnav_raw_unf. unfold wend. cbn [vn_loc vn_an wstart wsize].
     destruct (length an); [rewrite wvalue_0|rewrite wvalue_S]; rewrite vb_atom; now rewrite !Nat.add_0_r.
   Qed.
 
@@ -349,7 +400,7 @@ Section Value.
   Theorem raw_slice : forall (r : list B) (v v' : vnav),
     wstart (vn_loc v) <= wstart (vn_loc v') -> wend (vn_loc v') <= wend (vn_loc v) ->
     vnav_raw r v' = slice (vnav_raw r v) (wstart (vn_loc v') - wstart (vn_loc v)) (wend (vn_loc v') - wstart (vn_loc v)).
-  Proof. intros r v v' H1 H2. unfold vnav_raw. symmetry. now apply slice_slice. Qed.
+  Proof. intros r v v' H1 H2. rewrite !vnav_raw_unf. symmetry. now apply slice_slice. Qed.
 
   (* ---------------------------------------------------------------- schemas without OCCURS DEPENDING ON *)
 
@@ -381,14 +432,29 @@ Section Value.
     Variable r : list B.
 
     Lemma walkv_atom : forall a sz st an, walkv dcount r (JAtom a sz) st an = Ok (WAtom a st sz, wreg a (WAtom a st sz) an).
-    Proof. reflexivity. Qed.
+    Proof.
+      intros a sz st an.
+      change (walkv dcount r (JAtom a sz) st an)
+        with (Ok (WAtom a st (loc_size st (st + sz)), wreg a (WAtom a st (loc_size st (st + sz))) an) : res (wloc * wanchors)).
+      rewrite LayoutP.loc_size_plus. reflexivity.
+    Qed.
     Lemma walkv_arr : forall a n its st an,
       walkv dcount r (JArr a n its) st an =
       match walkv dcount r its st an with
       | Err e => Err e
       | Ok (sub, an1) => Ok (WArr st (wsize sub * n) (wsize sub) n sub its, wreg a (WArr st (wsize sub * n) (wsize sub) n sub its) an1)
       end.
-    Proof. reflexivity. Qed.
+    Proof.
+      intros a n its st an.
+      change (walkv dcount r (JArr a n its) st an)
+        with (match walkv dcount r its st an with
+              | Err e => Err e
+              | Ok (sub, an1) =>
+                  Ok (WArr st (loc_size st (st + wsize sub * n)) (wsize sub) n sub its,
+                      wreg a (WArr st (loc_size st (st + wsize sub * n)) (wsize sub) n sub its) an1)
+              end).
+      destruct (walkv dcount r its st an) as [[sub an1]|ex]; [|reflexivity]. rewrite LayoutP.loc_size_plus. reflexivity.
+    Qed.
     Lemma walkv_odo : forall a c its st an,
       walkv dcount r (JOdo a c its) st an =
       match wlookup (KName c) an with
@@ -402,21 +468,45 @@ Section Value.
           end
       | Some _ => Err TypeError
       end.
-    Proof. reflexivity. Qed.
-    Lemma walkv_obj : forall a ps st an,
-      walkv dcount r (JObj a ps) st an =
-      match walkv_props dcount r ps st an with
-      | Err e => Err e
-      | Ok (pls, off, an1) => Ok (WObj st (off - st) pls, wreg a (WObj st (off - st) pls) an1)
-      end.
-    Proof. reflexivity. Qed.
+    Proof.
+      intros a c its st an.
+      change (walkv dcount r (JOdo a c its) st an)
+        with (match wodo_count dcount r c an with
+              | Err e => Err e
+              | Ok cnt =>
+                  match walkv dcount r its st an with
+                  | Err e => Err e
+                  | Ok (sub, an1) =>
+                      Ok (WArr st (loc_size st (st + wsize sub * cnt)) (wsize sub) cnt sub its,
+                          wreg a (WArr st (loc_size st (st + wsize sub * cnt)) (wsize sub) cnt sub its) an1)
+                  end
+              end).
+      change (wodo_count dcount r c an)
+        with (match wlookup (KName c) an with
+              | None => Err KeyError
+              | Some (WAtom _ cst csz) => Ok (dcount (slice r cst (cst + csz)))
+              | Some _ => Err TypeError
+              end).
+      destruct (wlookup (KName c) an) as [[ca cst csz| | | |]|]; try reflexivity.
+      destruct (walkv dcount r its st an) as [[sub an1]|ex]; [|reflexivity]. rewrite LayoutP.loc_size_plus. reflexivity.
+    Qed.
     Lemma walkv_one : forall a s0 rest st an,
       walkv dcount r (JOne a (ACons s0 rest)) st an =
       match walkv_alts dcount r (ACons s0 rest) st an with
       | Err e => Err e
       | Ok (als, an1) => Ok (WOne st (wmax_size als) als, wreg a (WOne st (wmax_size als) als) an1)
       end.
-    Proof. reflexivity. Qed.
+    Proof.
+      intros a s0 rest st an.
+      change (walkv dcount r (JOne a (ACons s0 rest)) st an)
+        with (match walkv_alts dcount r (ACons s0 rest) st an with
+              | Err e => Err e
+              | Ok (als, an1) =>
+                  Ok (WOne st (loc_size st (st + wmax_size als)) als, wreg a (WOne st (loc_size st (st + wmax_size als)) als) an1)
+              end).
+      destruct (walkv_alts dcount r (ACons s0 rest) st an) as [[als an1]|ex]; [|reflexivity].
+      rewrite LayoutP.loc_size_plus. reflexivity.
+    Qed.
     Lemma walkv_one_nil : forall a st an, walkv dcount r (JOne a ANil) st an = Err ValueError.
     Proof. reflexivity. Qed.
     Lemma walkv_ref : forall t st an, walkv dcount r (JRef t) st an = Ok (WRef st t, an).
@@ -447,6 +537,40 @@ Section Value.
           end
       end.
     Proof. reflexivity. Qed.
+    (* the running offset ends at start + the sum of the property sizes: the size ObjectLocation.__init__ stores *)
+    Lemma walkv_props_offset :
+      forall ps off an pls off' an', walkv_props dcount r ps off an = Ok (pls, off', an') -> off' = off + wsum_props pls.
+    Proof.
+      induction ps as [|k p rest IH]; intros off an pls off' an' H.
+      - rewrite walkv_props_nil in H. injection H as <- <- <-. cbn [wsum_props]. lia.
+      - rewrite walkv_props_cons in H. destruct (walkv dcount r p off an) as [[pl an1]|ex]; [|discriminate].
+        destruct (walkv_props dcount r rest (off + wsize pl) (wreg (js_anchor p) pl an1)) as [[[rl o2] an2]|ex] eqn:E; [|discriminate].
+        injection H as <- <- <-. apply IH in E. cbn [wsum_props]. lia.
+    Qed.
+    Lemma wobj_size_eq : forall ps st an pls off an1,
+      walkv_props dcount r ps st an = Ok (pls, off, an1) -> wobj_size st off pls = off - st.
+    Proof.
+      intros ps st an pls off an1 E. apply walkv_props_offset in E.
+      first
+        [ change (wobj_size st off pls) with (wsum_props pls); lia
+        | change (wobj_size st off pls) with (loc_size st off); subst off; rewrite LayoutP.loc_size_plus; lia ].
+    Qed.
+    Lemma walkv_obj : forall a ps st an,
+      walkv dcount r (JObj a ps) st an =
+      match walkv_props dcount r ps st an with
+      | Err e => Err e
+      | Ok (pls, off, an1) => Ok (WObj st (off - st) pls, wreg a (WObj st (off - st) pls) an1)
+      end.
+    Proof.
+      intros a ps st an.
+      change (walkv dcount r (JObj a ps) st an)
+        with (match walkv_props dcount r ps st an with
+              | Err e => Err e
+              | Ok (pls, off, an1) => Ok (WObj st (wobj_size st off pls) pls, wreg a (WObj st (wobj_size st off pls) pls) an1)
+              end).
+      destruct (walkv_props dcount r ps st an) as [[[pls off] an1]|ex] eqn:E; [|reflexivity].
+      rewrite (wobj_size_eq _ _ _ _ _ _ E). reflexivity.
+    Qed.
 
     (* walking an ODO-free schema somewhere else, with other anchors, gives the same tree moved *)
     Lemma walkv_shift :
@@ -672,14 +796,14 @@ Section Value.
 
     Lemma inv_of : forall s v, vnav_of dcount r s = Ok v -> inv v.
     Proof.
-      intros s v E. unfold vnav_of in E. destruct (walkv dcount r s 0 []) as [[l an]|e] eqn:Ew; [|discriminate].
+      intros s v E. rewrite vnav_of_unf in E. destruct (walkv dcount r s 0 []) as [[l an]|e] eqn:Ew; [|discriminate].
       inversion E; subst. destruct (proj1 walkv_wf _ _ _ _ _ Ew) as [_ [H2 H3]]. split; [exact H2|].
       apply H3. intros k l' [].
     Qed.
 
     Lemma inv_name : forall v k v', inv v -> vnav_name v k = Ok v' -> inv v'.
     Proof.
-      intros [l an] k v' [Hw Ha] E. unfold vnav_name in E. cbn [vn_loc vn_an] in *.
+      intros [l an] k v' [Hw Ha] E. rewrite vnav_name_unf in E. cbn [vn_loc vn_an] in *.
       destruct l as [a st sz|st sz isz cnt it sch|st sz ps|st sz alts|st t]; try discriminate.
       destruct (wfind k ps) as [c|] eqn:Ef; [|discriminate]. cbn [wf] in Hw.
       destruct (wf_props_find _ _ _ _ (proj1 Hw) Ef) as [Hc _].
@@ -691,7 +815,7 @@ Section Value.
 
     Lemma inv_index : forall v i v', vnav_index dcount r v i = Ok v' -> inv v'.
     Proof.
-      intros [l an] i v' E. unfold vnav_index in E. cbn [vn_loc vn_an] in *.
+      intros [l an] i v' E. rewrite vnav_index_unf in E. cbn [vn_loc vn_an] in *.
       destruct l as [a st sz|st sz isz cnt it sch|st sz ps|st sz alts|st t]; try discriminate.
       destruct (cnt <=? i); [discriminate|].
       destruct (walkv dcount r sch (st + isz * i) []) as [[l' an']|e] eqn:Ew; [|discriminate].
@@ -711,7 +835,7 @@ Section Value.
     Lemma name_inside : forall v k v', inv v -> vnav_name v k = Ok v' -> ref_prop v k = false ->
       wstart (vn_loc v) <= wstart (vn_loc v') /\ wend (vn_loc v') <= wend (vn_loc v).
     Proof.
-      intros [l an] k v' [Hw Ha] E Hr. unfold vnav_name, ref_prop in *. cbn [vn_loc vn_an] in *.
+      intros [l an] k v' [Hw Ha] E Hr. unfold ref_prop in *. rewrite ?vnav_name_unf in *. cbn [vn_loc vn_an] in *.
       destruct l as [a st sz|st sz isz cnt it sch|st sz ps|st sz alts|st t]; try discriminate.
       destruct (wfind k ps) as [c|] eqn:Ef; [|discriminate]. cbn [wf] in Hw. destruct Hw as [Hp Hc].
       destruct (wf_props_find _ _ _ _ Hp Ef) as [_ [G1 G2]].
@@ -727,7 +851,7 @@ Section Value.
       intros [l an] st sz isz cnt it sch i [Hw _] Hl Hof Hi. cbn [vn_loc] in *. subst l. cbn [wf] in Hw.
       destruct Hw as [_ [_ [_ [_ [an0 [an1 Ew]]]]]].
       destruct (proj1 (walkv_shift r) sch Hof _ _ _ _ Ew) as [new [_ Hs]].
-      unfold vnav_index. cbn [vn_loc]. destruct (cnt <=? i) eqn:E; [apply Nat.leb_le in E; lia|].
+      rewrite vnav_index_unf. cbn [vn_loc]. destruct (cnt <=? i) eqn:E; [apply Nat.leb_le in E; lia|].
       rewrite Hs. eexists. reflexivity.
     Qed.
 
@@ -739,7 +863,7 @@ Section Value.
     Proof.
       intros v st sz isz cnt it sch i v' Hinv Hl Hof E.
       assert (Hi : i < cnt).
-      { unfold vnav_index in E. rewrite Hl in E. destruct (cnt <=? i) eqn:Ec; [discriminate|]. now apply Nat.leb_gt in Ec. }
+      { rewrite vnav_index_unf in E. rewrite Hl in E. destruct (cnt <=? i) eqn:Ec; [discriminate|]. now apply Nat.leb_gt in Ec. }
       destruct (index_shift v _ _ _ _ _ _ i Hinv Hl Hof Hi) as [an' E']. rewrite E' in E. inversion E; subst v'.
       destruct Hinv as [Hw _]. rewrite Hl in Hw. cbn [wf] in Hw. destruct Hw as [H1 [H2 [H3 _]]].
       cbn [vn_loc]. rewrite wstart_shift, wsize_shift. rewrite Hl. unfold wend. rewrite wstart_shift, wsize_shift.
@@ -792,7 +916,7 @@ Section Value.
       assert (Hrf : ref_free it = true).
       { destruct Hinv as [Hw _]. rewrite Hl in Hw. cbn [wf] in Hw. destruct Hw as [_ [_ [_ [_ [an0 [an1 Ew]]]]]].
         exact (proj1 walkv_simple_reffree _ Hs _ _ _ _ Ew). }
-      destruct v as [l an]. cbn [vn_loc] in Hl. subst l. unfold vnav_value in *. cbn [vn_loc vn_an] in *.
+      destruct v as [l an]. cbn [vn_loc] in Hl. subst l. unfold vnav_value in *; change SR.Gen.LayoutParams.value_default_offset with 0 in *. cbn [vn_loc vn_an] in *.
       assert (Hb : forall F an0, exists dr, wvalue r dec F an0 = value_body r dec an0 dr).
       { intros F an0. destruct F as [|f]; [exists (fun _ _ => None); apply wvalue_0|exists (wvalue r dec f an0); apply wvalue_S]. }
       destruct (Hb (length an) an) as [dr Hw]. rewrite Hw, vb_arr in Hv.
@@ -810,7 +934,7 @@ Section Value.
     vn_loc v = WArr st sz isz cnt it sch -> i < cnt ->
     index_start_z v (Z.of_nat i) = Ok (Z.of_nat (st + isz * i)).
   Proof.
-    intros v st sz isz cnt it sch i Hl Hi. unfold index_start_z. rewrite Hl.
+    intros v st sz isz cnt it sch i Hl Hi. rewrite index_start_z_unf. rewrite Hl.
     destruct (Z.of_nat cnt <=? Z.of_nat i)%Z eqn:E; [apply Z.leb_le in E; lia|]. f_equal. lia.
   Qed.
 
@@ -818,7 +942,7 @@ Section Value.
     vn_loc v = WArr st sz isz cnt it sch -> (z < 0)%Z ->
     index_start_z v z = Ok (Z.of_nat st + Z.of_nat isz * z)%Z.
   Proof.
-    intros v st sz isz cnt it sch z Hl Hz. unfold index_start_z. rewrite Hl.
+    intros v st sz isz cnt it sch z Hl Hz. rewrite index_start_z_unf. rewrite Hl.
     destruct (Z.of_nat cnt <=? z)%Z eqn:E; [apply Z.leb_le in E; lia|]. reflexivity.
   Qed.
 
@@ -884,7 +1008,7 @@ Section Value.
   Lemma foot_inside_reffree : forall (r : list B) (v : vnav),
     inv r v -> ref_free (vn_loc v) = true -> foot_inside v = true.
   Proof.
-    intros r [l an] [Hw _] Hrf. cbn [vn_loc] in *. unfold foot_inside, vnav_foot. cbn [vn_loc vn_an].
+    intros r [l an] [Hw _] Hrf. cbn [vn_loc] in *. unfold foot_inside, vnav_foot; change SR.Gen.LayoutParams.value_default_offset with 0. cbn [vn_loc vn_an].
     apply forallb_forall. intros [a b] Hin. cbn [fst snd].
     assert (Hb : exists df, wfoot (length an) an = foot_body an df).
     { destruct (length an) as [|f]; [exists (fun _ _ => []); apply wfoot_0|exists (wfoot f an); apply wfoot_S]. }
@@ -963,13 +1087,13 @@ Section Value.
     intros r. induction p as [|s p IH]; intros v v' Hs E; cbn [vnav_path] in E; [inversion E; now subst|].
     destruct (vnav_step dcount r v s) as [v1|e] eqn:Es; [|discriminate]. apply (IH v1); [|exact E].
     destruct v as [l an]. cbn [vn_loc] in Hs. destruct s as [k|i]; cbn [vnav_step] in Es.
-    - unfold vnav_name in Es. cbn [vn_loc vn_an] in Es.
+    - rewrite vnav_name_unf in Es. cbn [vn_loc vn_an] in Es.
       destruct l as [a st sz|st sz isz cnt it sch|st sz ps|st sz alts|st t]; try discriminate.
       destruct (wfind k ps) as [c|] eqn:Ef; [|discriminate]. cbn [simple_loc] in Hs.
       pose proof (simple_loc_find _ _ _ Hs Ef) as Hc.
       destruct c as [a' st' sz'|st' sz' isz' cnt' it' sch'|st' sz' ps'|st' sz' alts'|st' t']; try discriminate;
         inversion Es; subst v1; exact Hc.
-    - unfold vnav_index in Es. cbn [vn_loc vn_an] in Es.
+    - rewrite vnav_index_unf in Es. cbn [vn_loc vn_an] in Es.
       destruct l as [a st sz|st sz isz cnt it sch|st sz ps|st sz alts|st t]; try discriminate.
       destruct (cnt <=? i); [discriminate|]. cbn [simple_loc] in Hs. apply andb_prop in Hs. destruct Hs as [Hsch _].
       destruct (walkv dcount r sch (st + isz * i) []) as [[l' an']|e] eqn:Ew; [|discriminate]. inversion Es; subst v1.
@@ -982,14 +1106,14 @@ Section Value.
     intros r s p v0 v Hs H0 Hp. apply (foot_inside_reffree r).
     - exact (inv_path r p v0 v (inv_of r s v0 H0) Hp).
     - apply (proj1 simple_loc_reffree). apply (simple_path r p v0 v); [|exact Hp].
-      unfold vnav_of in H0. destruct (walkv dcount r s 0 []) as [[l an]|e] eqn:Ew; [|discriminate]. inversion H0; subst.
+      rewrite vnav_of_unf in H0. destruct (walkv dcount r s 0 []) as [[l an]|e] eqn:Ew; [|discriminate]. inversion H0; subst.
       exact (proj1 (walkv_simple_loc r) _ Hs _ _ _ _ Ew).
   Qed.
 
   Lemma index_refused : forall (r : list B) (v : vnav) st sz isz cnt it sch i,
     vn_loc v = WArr st sz isz cnt it sch -> cnt <= i -> vnav_index dcount r v i = Err IndexError.
   Proof.
-    intros r v st sz isz cnt it sch i Hl Hi. unfold vnav_index. rewrite Hl.
+    intros r v st sz isz cnt it sch i Hl Hi. rewrite vnav_index_unf. rewrite Hl.
     destruct (cnt <=? i) eqn:E; [reflexivity|]. apply Nat.leb_gt in E. lia.
   Qed.
 
@@ -1034,23 +1158,20 @@ Section Erase.
           | Ok (als, an') => Ok (erase_alts als, erase_an an') | Err e => Err e end).
   Proof.
     apply js_props_alts_ind.
-    - intros a sz st an. rewrite walkv_atom. cbn [walk erase_res erase]. now rewrite <- reg_erase.
-    - intros a n its IH st an. rewrite walkv_arr. cbn [walk]. rewrite IH.
+    - intros a sz st an. rewrite walkv_atom, LayoutP.walk_atom. cbn [erase_res erase]. now rewrite <- reg_erase.
+    - intros a n its IH st an. rewrite walkv_arr, LayoutP.walk_arr. rewrite IH.
       destruct (walkv dcount r its st an) as [[sub an1]|e]; [|reflexivity]. cbn [erase_res erase].
       rewrite lsize_erase. now rewrite <- reg_erase.
-    - intros a c its IH st an. rewrite walkv_odo. cbn [walk]. rewrite lookup_erase.
+    - intros a c its IH st an. rewrite walkv_odo, LayoutP.walk_odo. rewrite lookup_erase.
       destruct (wlookup (KName c) an) as [[ca cst csz| | | |]|]; try reflexivity.
       cbn [option_map erase]. rewrite IH.
       destruct (walkv dcount r its st an) as [[sub an1]|e]; [|reflexivity]. cbn [erase_res erase].
       rewrite lsize_erase. now rewrite <- reg_erase.
-    - intros a ps IH st an. rewrite walkv_obj. cbn [walk]. rewrite IH.
+    - intros a ps IH st an. rewrite walkv_obj, LayoutP.walk_obj. rewrite IH.
       destruct (walkv_props dcount r ps st an) as [[[pls off] an1]|e]; [|reflexivity]. cbn [erase_res erase].
       now rewrite <- reg_erase.
     - intros a alts IH st an. destruct alts as [|s0 rest]; [reflexivity|]. rewrite walkv_one.
-      change (walk dcount r (JOne a (ACons s0 rest)) st (erase_an an)) with
-        (match walk_alts dcount r (ACons s0 rest) st (erase_an an) with
-         | Err e => Err e
-         | Ok (als, an1) => Ok (LOne st (max_size als) als, reg a (LOne st (max_size als) als) an1) end).
+      rewrite LayoutP.walk_one.
       rewrite IH.
       destruct (walkv_alts dcount r (ACons s0 rest) st an) as [[als an1]|e]; [|reflexivity]. cbn [erase_res erase].
       rewrite max_size_erase. now rewrite <- reg_erase.
@@ -1087,13 +1208,13 @@ Section Erase.
 
   Lemma nav_of_erase : forall s, nav_of dcount r s = erase_rnav (vnav_of dcount r s).
   Proof.
-    intros s. unfold nav_of, vnav_of. change (@nil (key * loc)) with (erase_an []).
+    intros s. rewrite LayoutP.nav_of_unf, vnav_of_unf. change (@nil (key * loc)) with (erase_an []).
     rewrite (proj1 walkv_erase). destruct (walkv dcount r s 0 []) as [[l an]|e]; reflexivity.
   Qed.
 
   Lemma nav_name_erase : forall v k, nav_name (erase_nav v) k = erase_rnav (vnav_name v k).
   Proof.
-    intros [l an] k. unfold nav_name, vnav_name, erase_nav. cbn [n_loc n_an vn_loc vn_an].
+    intros [l an] k. rewrite LayoutP.nav_name_unf, vnav_name_unf. unfold erase_nav. cbn [n_loc n_an vn_loc vn_an].
     destruct l as [a st sz|st sz isz cnt it sch|st sz ps|st sz alts|st t]; try reflexivity.
     cbn [erase]. rewrite find_prop_erase. destruct (wfind k ps) as [c|]; [|reflexivity]. cbn [option_map].
     destruct c as [a' st' sz'|st' sz' isz' cnt' it' sch'|st' sz' ps'|st' sz' alts'|st' t']; try reflexivity.
@@ -1102,14 +1223,14 @@ Section Erase.
 
   Lemma nav_index_erase : forall v i, nav_index dcount r (erase_nav v) i = erase_rnav (vnav_index dcount r v i).
   Proof.
-    intros [l an] i. unfold nav_index, vnav_index, erase_nav. cbn [n_loc n_an vn_loc vn_an].
+    intros [l an] i. rewrite LayoutP.nav_index_unf, vnav_index_unf. unfold erase_nav. cbn [n_loc n_an vn_loc vn_an].
     destruct l as [a st sz|st sz isz cnt it sch|st sz ps|st sz alts|st t]; try reflexivity.
     cbn [erase]. destruct (cnt <=? i); [reflexivity|]. change (@nil (key * loc)) with (erase_an []).
     rewrite (proj1 walkv_erase). destruct (walkv dcount r sch (st + isz * i) []) as [[l' an']|e]; reflexivity.
   Qed.
 
   Lemma nav_raw_erase : forall v, nav_raw r (erase_nav v) = vnav_raw r v.
-  Proof. intros [l an]. unfold nav_raw, vnav_raw, erase_nav, lend, wend. cbn [n_loc vn_loc]. now rewrite lstart_erase, lsize_erase. Qed.
+  Proof. intros [l an]. rewrite LayoutP.nav_raw_unf, vnav_raw_unf. unfold erase_nav, lend, wend. cbn [n_loc vn_loc]. now rewrite lstart_erase, lsize_erase. Qed.
 End Erase.
 
 (* ------------------------------------------------------------------ the location tree depends on the record only through the ODO counters *)
@@ -1241,7 +1362,7 @@ Section Counters.
   Theorem nav_counters : forall (r r' : list B) s v,
     vnav_of dcount r s = Ok v -> counters_agree r r' (odo_keys s) (vn_an v) -> vnav_of dcount r' s = Ok v.
   Proof.
-    intros r r' s v E H. unfold vnav_of in *. destruct (walkv dcount r s 0 []) as [[l an]|e] eqn:Ew; [|discriminate].
+    intros r r' s v E H. rewrite !vnav_of_unf in *. destruct (walkv dcount r s 0 []) as [[l an]|e] eqn:Ew; [|discriminate].
     inversion E; subst. cbn [vn_an] in H. now rewrite (proj1 (walkv_counters r r') _ _ _ _ _ Ew H).
   Qed.
 End Counters.
@@ -1917,7 +2038,7 @@ Section N.
   Proof.
     intros s v Hc E. unfold cobol_like in Hc. apply andb_prop in Hc. destruct Hc as [H1 H2]. apply nodupk_NoDup in H2.
     pose proof (inv_of B dcount r s v E) as Hinv.
-    unfold vnav_of in E. destruct (walkv dcount r s 0 []) as [[l an]|e] eqn:Ew; [|discriminate]. inversion E; subst.
+    rewrite vnav_of_unf in E. destruct (walkv dcount r s 0 []) as [[l an]|e] eqn:Ew; [|discriminate]. inversion E; subst.
     eapply J_walk; eauto.
   Qed.
 
@@ -1930,7 +2051,7 @@ Section N.
   Lemma J_name : forall v k v', J v -> vnav_name v k = Ok v' -> J v'.
   Proof.
     intros v k v' [Hinv [Hc [Ht Ha]]] E. pose proof (inv_name B dcount r v k v' Hinv E) as Hinv'.
-    destruct v as [l an]. unfold vnav_name in E. cbn [vn_loc vn_an] in *.
+    destruct v as [l an]. rewrite vnav_name_unf in E. cbn [vn_loc vn_an] in *.
     destruct l as [a st sz|st sz isz cnt it sch|st sz ps|st sz alts|st t]; try discriminate.
     destruct (wfind k ps) as [c|] eqn:Ef; [|discriminate]. rewrite tidy_obj in Ht.
     pose proof (tidy_props_find _ _ _ _ _ _ Ht Ef) as Hp.
@@ -1943,7 +2064,7 @@ Section N.
   Lemma J_index : forall v i v', J v -> vnav_index dcount r v i = Ok v' -> J v'.
   Proof.
     intros v i v' [Hinv [Hc [Ht Ha]]] E. pose proof (inv_index B dcount r v i v' E) as Hinv'.
-    destruct v as [l an]. unfold vnav_index in E. cbn [vn_loc vn_an] in *.
+    destruct v as [l an]. rewrite vnav_index_unf in E. cbn [vn_loc vn_an] in *.
     destruct l as [a st sz|st sz isz cnt it sch|st sz ps|st sz alts|st t]; try discriminate.
     destruct (cnt <=? i); [discriminate|]. rewrite tidy_arr in Ht. destruct Ht as [Hok [Hnd _]].
     destruct (walkv dcount r sch (st + isz * i) []) as [[l' an']|e] eqn:Ew; [|discriminate]. inversion E; subst v'.
@@ -1962,7 +2083,7 @@ Section N.
     wstart (vn_loc v) <= wstart (vn_loc v') /\ wend (vn_loc v') <= wend (vn_loc v).
   Proof.
     intros v k v' Hj E. destruct (ref_prop v k) eqn:Er; [|exact (name_inside B dcount r v k v' (proj1 Hj) E Er)].
-    destruct Hj as [Hinv [Hc [Ht Ha]]]. destruct v as [l an]. unfold vnav_name, ref_prop in *. cbn [vn_loc vn_an] in *.
+    destruct Hj as [Hinv [Hc [Ht Ha]]]. destruct v as [l an]. unfold ref_prop in *. rewrite ?vnav_name_unf in *. cbn [vn_loc vn_an] in *.
     destruct l as [a st sz|st sz isz cnt it sch|st sz ps|st sz alts|st t]; try discriminate.
     destruct (wfind k ps) as [c|] eqn:Ef; [|discriminate]. rewrite tidy_obj in Ht.
     pose proof (tidy_props_find _ _ _ _ _ _ Ht Ef) as Hp.
@@ -2022,7 +2143,7 @@ Section N.
 
   Lemma foot_inside_J : forall v, J v -> foot_inside v = true.
   Proof.
-    intros [l an] [[Hw Hwa] [Hc [Ht Ha]]]. cbn [vn_loc vn_an] in *. unfold foot_inside, vnav_foot. cbn [vn_loc vn_an].
+    intros [l an] [[Hw Hwa] [Hc [Ht Ha]]]. cbn [vn_loc vn_an] in *. unfold foot_inside, vnav_foot; change SR.Gen.LayoutParams.value_default_offset with 0. cbn [vn_loc vn_an].
     apply forallb_forall. intros [a b] Hin. cbn [fst snd].
     destruct (foot_tidy an Hc Hwa Ha (length an) l Hw Ht 0 a b Hin) as [G1 G2].
     apply andb_true_intro. split; apply Nat.leb_le; lia.
@@ -2040,13 +2161,13 @@ Section N.
     destruct (proj1 (walkv_shift B dcount r) sch Hof _ _ _ _ Ew) as [n2 [E2 Hsh]]. apply app_inv_tail in E2. subst n2.
     set (D := isz * i).
     assert (Ei : vnav_index dcount r (mkvnav (WArr st sz isz cnt it sch) an) i = Ok (mkvnav (wshift D it) (shift_an D nw))).
-    { unfold vnav_index. cbn [vn_loc]. destruct (cnt <=? i) eqn:E; [apply Nat.leb_le in E; lia|]. fold D. rewrite Hsh, app_nil_r. reflexivity. }
-    unfold vnav_value in Hv. cbn [vn_loc vn_an] in Hv.
+    { rewrite vnav_index_unf. cbn [vn_loc]. destruct (cnt <=? i) eqn:E; [apply Nat.leb_le in E; lia|]. fold D. rewrite Hsh, app_nil_r. reflexivity. }
+    unfold vnav_value in Hv; change SR.Gen.LayoutParams.value_default_offset with 0 in Hv. cbn [vn_loc vn_an] in Hv.
     destruct (wvalue_body B A dec r an (length an)) as [dr [Hw _]]. rewrite Hw, (vb_arr B A dec) in Hv.
     destruct (seq_values (fun j => value_body r dec an dr it (0 + j * isz)) cnt 0) as [[ys|e]|] eqn:Es; try discriminate.
     inversion Hv; subst ys. destruct (seq_values_nth _ _ _ _ Es) as [_ Hn]. destruct (Hn i Hi) as [x [Hx1 Hx2]].
     exists (mkvnav (wshift D it) (shift_an D nw)), x. split; [exact Ei|]. split; [exact Hx1|].
-    unfold vnav_value. cbn [vn_loc vn_an].
+    unfold vnav_value; change SR.Gen.LayoutParams.value_default_offset with 0. cbn [vn_loc vn_an].
     assert (Hlen : length (shift_an D nw) = length nw) by (unfold shift_an; apply map_length). rewrite Hlen.
     rewrite (shift_wvalue B A dec r an nw D Hc Hsub (fun k lk Hin => rankedF_closed nw k lk Hrk Hin) (length nw) it Hrefs 0).
     assert (Hwhole : wvalue r dec (length an) an it (0 + D) = Some (Ok x)).
@@ -2134,7 +2255,7 @@ Section OF.
 
   Lemma ofree_of : forall s v, odo_free s = true -> vnav_of dcount r s = Ok v -> ofree_nav v.
   Proof.
-    intros s v Hof E. unfold vnav_of in E. destruct (walkv dcount r s 0 []) as [[l an]|e] eqn:Ew; [|discriminate]. inversion E; subst.
+    intros s v Hof E. rewrite vnav_of_unf in E. destruct (walkv dcount r s 0 []) as [[l an]|e] eqn:Ew; [|discriminate]. inversion E; subst.
     destruct (proj1 walkv_ofree s Hof _ _ _ _ Ew) as [H1 H2]. split; [exact H1|]. apply H2. intros k l' [].
   Qed.
 
@@ -2143,7 +2264,7 @@ Section OF.
     induction p as [|s p IH]; intros v v' Hv E; cbn [vnav_path] in E; [inversion E; now subst|].
     destruct (vnav_step dcount r v s) as [v1|e] eqn:Es; [|discriminate]. apply (IH v1); [|exact E].
     destruct v as [l an]. destruct Hv as [Hl Ha]. cbn [vn_loc vn_an] in *. destruct s as [k|i]; cbn [vnav_step] in Es.
-    - unfold vnav_name in Es. cbn [vn_loc vn_an] in Es.
+    - rewrite vnav_name_unf in Es. cbn [vn_loc vn_an] in Es.
       destruct l as [a st sz|st sz isz cnt it sch|st sz ps|st sz alts|st t]; try discriminate.
       destruct (wfind k ps) as [c|] eqn:Ef; [|discriminate]. cbn [ofree_loc] in Hl.
       pose proof (ofree_find _ _ _ Hl Ef) as Hc.
@@ -2151,7 +2272,7 @@ Section OF.
         try (inversion Es; subst v1; split; assumption).
       destruct (wlookup t' an) as [target|] eqn:El; [|discriminate]. inversion Es; subst v1.
       split; [|exact Ha]. cbn [vn_loc]. destruct (wlookup_in _ _ _ El) as [k' Hin]. exact (Ha _ _ Hin).
-    - unfold vnav_index in Es. cbn [vn_loc vn_an] in Es.
+    - rewrite vnav_index_unf in Es. cbn [vn_loc vn_an] in Es.
       destruct l as [a st sz|st sz isz cnt it sch|st sz ps|st sz alts|st t]; try discriminate.
       destruct (cnt <=? i); [discriminate|]. cbn [ofree_loc] in Hl. apply andb_prop in Hl. destruct Hl as [Hsch _].
       destruct (walkv dcount r sch (st + isz * i) []) as [[l' an']|e] eqn:Ew; [|discriminate]. inversion Es; subst v1.
